@@ -6,7 +6,6 @@ import (
 	"reflect"
 	"sync"
 	"testing"
-	"time"
 
 	"pgregory.net/rapid"
 
@@ -28,9 +27,6 @@ import (
 //
 // Non-trivial: at least one planner Select offered >= 2 strategies and a
 // non-default strategy was chosen and ran to completion.
-
-// SigListObjectsHang: a ListObjects call outlives its deadline by far.
-const SigListObjectsHang = "C20/listobjects-hang"
 
 type C02Case struct {
 	World   gen.World       `json:"world"`
@@ -185,8 +181,15 @@ func checkC02(env *fw.Env, c C02Case) *fw.Failure {
 				var objs []string
 				var err error
 				var evs []semkit.SelectEvent
-				if !semkit.Watchdog(90*time.Second, func() { objs, err, evs = semkit.CmdListObjects(ctx, s.DS, ts, storeID, tu, lr) }) {
-					return fw.Failf(SigListObjectsHang, "ListObjects(%+v) under configuration %+v did not return within 90 s (its deadline is 30 s)\n%s\nstuck goroutines:\n%s",
+				if skipKnownPipelineHang(env, tu.LOEngine, c.World.Model) {
+					break
+				}
+				if !semkit.Watchdog(semkit.HangLimit(), func() { objs, err, evs = semkit.CmdListObjects(ctx, s.DS, ts, storeID, tu, lr) }) {
+					sig := ""
+					if tu.LOEngine == "pipeline" && hasDuplicateDirectOperands(c.World.Model) {
+						sig = SigPipelineHangDuplicateDirect
+					}
+					return fw.Failf(sig, "ListObjects(%+v) under configuration %+v did not return within the hang limit (its deadline is 30 s)\n%s\nstuck goroutines:\n%s",
 						lr, tu, semkit.Describe(c.World), semkit.GoroutineDump("listobjects"))
 				}
 				if semkit.IsTooComplex(err) {
